@@ -95,6 +95,60 @@ pub fn observe(inst: &mut Instance, uni: &Universe, depth: Depth) -> Obs {
     o
 }
 
+/// the same queries as `observe`, as explicit (method, params) pairs
+pub fn queries(uni: &Universe) -> Vec<(String, Value)> {
+    struct Rec(Vec<(String, Value)>);
+    let mut out = vec![];
+    let mut push = |m: &str, p: Value| out.push((m.to_string(), p));
+    push("eth_blockNumber", json!([]));
+    for h in 0..=uni.max_height + 1 {
+        let hx = format!("0x{:x}", h);
+        push("eth_getBlockByNumber", json!([hx, true]));
+        push("eth_getBlockTransactionCountByNumber", json!([hx]));
+        push("debug_getRawHeader", json!([hx]));
+        push("debug_getRawBlock", json!([hx]));
+        push("debug_getRawReceipts", json!([hx]));
+        push("debug_getBlockTraceString", json!([hx]));
+        push("debug_getBlockTraceHash", json!([hx]));
+    }
+    for bh in &uni.block_hashes {
+        if !bh.is_empty() {
+            push("eth_getBlockByHash", json!([bh, false]));
+        }
+    }
+    for th in &uni.tx_hashes {
+        push("eth_getTransactionByHash", json!([th]));
+        push("eth_getTransactionReceipt", json!([th]));
+        push("debug_traceTransaction", json!([th]));
+    }
+    for a in &uni.addresses {
+        push("eth_getTransactionCount", json!([a, "latest"]));
+        push("eth_getCode", json!([a]));
+        push("brc20_getInscriptionIdByContractAddress", json!([a]));
+    }
+    for (a, slots) in &uni.slots {
+        for s in slots {
+            push("eth_getStorageAt", json!([a, s]));
+        }
+    }
+    push("txpool_content", json!([]));
+    let mut from = 0u64;
+    loop {
+        push("eth_getLogs", json!([{"fromBlock": format!("0x{:x}", from), "toBlock": format!("0x{:x}", from + 5)}]));
+        if from + 5 >= uni.max_height + 1 {
+            break;
+        }
+        from += 3;
+    }
+    for t in &uni.tickers {
+        for i in 0..N_PK {
+            push("brc20_balance", json!({"pkscript": pkscript(i), "ticker": t}));
+        }
+    }
+    let _ = Rec(vec![]);
+    out
+}
+
 /// keys whose values differ (or exist on one side only), at most `limit`
 pub fn diff(a: &Obs, b: &Obs, limit: usize) -> Vec<(String, Value, Value)> {
     let mut out = vec![];
